@@ -7,11 +7,15 @@ From Tetl Require Import Lib.Base C18.Model.
 From Tetl Require Gen.Gen_cctype Gen.Gen_cwctype.
 From Coq Require Import ZifyBool.
 Local Open Scope Z_scope.
+Ltac Zify.zify_post_hook ::= Z.to_euclidean_division_equations.
 
-Ltac cls G M := intros c; unfold G, M, b2z, between; cbv zeta; reflexivity.
-Ltac cls_lia G M :=
-  intros c; unfold G, M, b2z, between; cbv zeta; f_equal;
+(* Proofs are semantic where possible: first try conversion (the generated term usually IS the model term), otherwise
+   decide the boolean structure by case analysis + linear arithmetic, so that a harmless rewrite of a kernel
+   (reordered tests, `not (c < lo)` for `c >= lo`, an equivalent range split) still re-proves. *)
+Ltac solve_bool :=
   repeat match goal with |- context [if ?b then _ else _] => destruct b eqn:? end; lia.
+Ltac cls G M := intros c; unfold G, M, b2z, between; cbv zeta; first [reflexivity | f_equal; solve_bool].
+Ltac cls_lia G M := intros c; unfold G, M, b2z, between; cbv zeta; f_equal; solve_bool.
 
 Module C := Gen_cctype.
 Module W := Gen_cwctype.
@@ -29,26 +33,48 @@ Theorem gen_isxdigit_eq : forall c, C.isxdigit_g c = Some (isxdigit_m c). Proof.
 
 Theorem gen_isgraph_eq : forall c, C.isgraph_g c = Some (isgraph_m c).
 Proof.
-  intros c. unfold C.isgraph_g. rewrite gen_isdigit_eq, gen_isupper_eq, gen_islower_eq, gen_ispunct_eq.
-  cbn [obind]. cbv zeta. unfold isgraph_m.
+  intros c. unfold C.isgraph_g.
+  repeat (first [rewrite gen_isdigit_eq | rewrite gen_isupper_eq | rewrite gen_islower_eq | rewrite gen_ispunct_eq
+                | rewrite gen_isalpha_eq | rewrite gen_isalnum_eq ]; cbn [obind]).
+  cbv zeta. unfold isgraph_m.
   first [ reflexivity
-        | f_equal; unfold isdigit_m, isupper_m, islower_m, ispunct_m, b2z, between;
-          repeat match goal with |- context [if ?b then _ else _] => destruct b eqn:? end; lia ].
+        | f_equal; unfold isdigit_m, isupper_m, islower_m, ispunct_m, isalpha_m, isalnum_m, b2z, between; solve_bool ].
 Qed.
 
 Theorem gen_isprint_eq : forall c, C.isprint_g c = Some (isprint_m c).
-Proof. intros c. unfold C.isprint_g. rewrite gen_isgraph_eq. cbn [obind]. reflexivity. Qed.
+Proof.
+  intros c. unfold C.isprint_g. rewrite gen_isgraph_eq. cbn [obind]. cbv zeta.
+  first [ reflexivity | unfold isprint_m, b2z; f_equal; solve_bool ].
+Qed.
 
+Lemma chk_i32_small : forall x, -2147483648 <= x <= 2147483647 -> chk i32 x = Some x.
+Proof.
+  intros x H. unfold chk, in_ty. replace (imin i32) with (-2147483648) by reflexivity.
+  replace (imax i32) with 2147483647 by reflexivity.
+  destruct ((-2147483648 <=? x) && (x <=? 2147483647)) eqn:E; [reflexivity | lia].
+Qed.
+
+Lemma isupper_range : forall c, negb (isupper_m c =? 0) = true -> 65 <= c <= 90.
+Proof. intros c. unfold isupper_m, b2z, between. destruct ((c >=? 65) && (c <=? 90)) eqn:B; cbn; [lia | discriminate]. Qed.
+Lemma islower_range : forall c, negb (islower_m c =? 0) = true -> 97 <= c <= 122.
+Proof. intros c. unfold islower_m, b2z, between. destruct ((c >=? 97) && (c <=? 122)) eqn:B; cbn; [lia | discriminate]. Qed.
+
+(* semantic fallback: on the taken branch the argument is a letter, so every checked int operation of the generated
+   term is in range and the arithmetic is compared by lia (e.g. `ch + ('a' - 'A')` instead of `ch + 32`) *)
 Theorem gen_tolower_eq : forall c, C.tolower_g c = tolower_m c.
 Proof.
-  intros c. unfold C.tolower_g, tolower_m. rewrite gen_isupper_eq. cbn [obind].
-  destruct (negb (isupper_m c =? 0)); [destruct (chk i32 (c + 32)); reflexivity | reflexivity].
+  intros c. unfold C.tolower_g, tolower_m. repeat (first [rewrite gen_isupper_eq | rewrite gen_islower_eq]; cbn [obind]).
+  first [ destruct (negb (isupper_m c =? 0)); [destruct (chk i32 (c + 32)); reflexivity | reflexivity]
+        | destruct (negb (isupper_m c =? 0)) eqn:E; [|reflexivity]; apply isupper_range in E;
+          repeat (rewrite chk_i32_small by lia; cbn [obind]); f_equal; lia ].
 Qed.
 
 Theorem gen_toupper_eq : forall c, C.toupper_g c = toupper_m c.
 Proof.
-  intros c. unfold C.toupper_g, toupper_m. rewrite gen_islower_eq. cbn [obind].
-  destruct (negb (islower_m c =? 0)); [destruct (chk i32 (c - 32)); reflexivity | reflexivity].
+  intros c. unfold C.toupper_g, toupper_m. repeat (first [rewrite gen_isupper_eq | rewrite gen_islower_eq]; cbn [obind]).
+  first [ destruct (negb (islower_m c =? 0)); [destruct (chk i32 (c - 32)); reflexivity | reflexivity]
+        | destruct (negb (islower_m c =? 0)) eqn:E; [|reflexivity]; apply islower_range in E;
+          repeat (rewrite chk_i32_small by lia; cbn [obind]); f_equal; lia ].
 Qed.
 
 (* wide versions (wint_t = unsigned int) *)
@@ -65,24 +91,38 @@ Theorem gen_iswxdigit_eq : forall c, W.iswxdigit_g c = Some (iswxdigit_m c). Pro
 
 Theorem gen_iswgraph_eq : forall c, W.iswgraph_g c = Some (iswgraph_m c).
 Proof.
-  intros c. unfold W.iswgraph_g. rewrite gen_iswdigit_eq, gen_iswupper_eq, gen_iswlower_eq, gen_iswpunct_eq.
-  cbn [obind]. cbv zeta. unfold iswgraph_m.
+  intros c. unfold W.iswgraph_g.
+  repeat (first [rewrite gen_iswdigit_eq | rewrite gen_iswupper_eq | rewrite gen_iswlower_eq | rewrite gen_iswpunct_eq
+                | rewrite gen_iswalpha_eq | rewrite gen_iswalnum_eq ]; cbn [obind]).
+  cbv zeta. unfold iswgraph_m.
   first [ reflexivity
-        | f_equal; unfold iswdigit_m, iswupper_m, iswlower_m, iswpunct_m, b2z, between;
-          repeat match goal with |- context [if ?b then _ else _] => destruct b eqn:? end; lia ].
+        | f_equal; unfold iswdigit_m, iswupper_m, iswlower_m, iswpunct_m, iswalpha_m, iswalnum_m, b2z, between; solve_bool ].
 Qed.
 
 Theorem gen_iswprint_eq : forall c, W.iswprint_g c = Some (iswprint_m c).
-Proof. intros c. unfold W.iswprint_g. rewrite gen_iswgraph_eq. cbn [obind]. reflexivity. Qed.
+Proof.
+  intros c. unfold W.iswprint_g. rewrite gen_iswgraph_eq. cbn [obind]. cbv zeta.
+  first [ reflexivity | unfold iswprint_m, b2z; f_equal; solve_bool ].
+Qed.
+
+Lemma iswupper_range : forall c, negb (iswupper_m c =? 0) = true -> 65 <= c <= 90.
+Proof. intros c. unfold iswupper_m, b2z, between. destruct ((c >=? 65) && (c <=? 90)) eqn:B; cbn; [lia | discriminate]. Qed.
+Lemma iswlower_range : forall c, negb (iswlower_m c =? 0) = true -> 97 <= c <= 122.
+Proof. intros c. unfold iswlower_m, b2z, between. destruct ((c >=? 97) && (c <=? 122)) eqn:B; cbn; [lia | discriminate]. Qed.
+
+Ltac wrap_arith :=
+  unfold wrap_ty, wrapu, u32; cbn [sgn bits]; change (2 ^ 32) with 4294967296; f_equal; lia.
 
 Theorem gen_towlower_eq : forall c, W.towlower_g c = Some (towlower_m c).
 Proof.
-  intros c. unfold W.towlower_g, towlower_m. rewrite gen_iswupper_eq. cbn [obind].
-  destruct (negb (iswupper_m c =? 0)); reflexivity.
+  intros c. unfold W.towlower_g, towlower_m. repeat (first [rewrite gen_iswupper_eq | rewrite gen_iswlower_eq]; cbn [obind]).
+  first [ destruct (negb (iswupper_m c =? 0)); reflexivity
+        | destruct (negb (iswupper_m c =? 0)) eqn:E; [|reflexivity]; apply iswupper_range in E; wrap_arith ].
 Qed.
 
 Theorem gen_towupper_eq : forall c, W.towupper_g c = Some (towupper_m c).
 Proof.
-  intros c. unfold W.towupper_g, towupper_m. rewrite gen_iswlower_eq. cbn [obind].
-  destruct (negb (iswlower_m c =? 0)); reflexivity.
+  intros c. unfold W.towupper_g, towupper_m. repeat (first [rewrite gen_iswupper_eq | rewrite gen_iswlower_eq]; cbn [obind]).
+  first [ destruct (negb (iswlower_m c =? 0)); reflexivity
+        | destruct (negb (iswlower_m c =? 0)) eqn:E; [|reflexivity]; apply iswlower_range in E; wrap_arith ].
 Qed.
